@@ -16,7 +16,7 @@ import FxVerif.Gen.C12Msg
 * `rawPower` / `rawTotal`: `Oracle.GetPower` and the `uint64` accumulation of `GetCurrentOracleSet`.
 -/
 namespace FxVerif.Model.C12
-open FxVerif.Gen.C12Msg FxVerif.Gen.C12Sig
+open FxVerif.Gen.C12 FxVerif.Gen.C12Msg FxVerif.Gen.C12Sig
 
 /-- what `ValidateBasic` calls and the model does not compute -/
 structure VbEnv where
@@ -127,6 +127,41 @@ def txApply (E : VbEnv) (tron : Bool) (recoverBy : String → List Nat → List 
 
 def txRun (E : VbEnv) (tron : Bool) (recoverBy : String → List Nat → List Nat → Option String) (st : HState) (ops : List TxOp) : HState :=
   ops.foldl (txApply E tron recoverBy) st
+
+/-! ### a confirm delivered by a SIGNED transaction: ante handler (signer), the `MsgConfirm` wrapper -/
+
+/-- a signed transaction carrying one confirm message: the account whose signature the ante handler verified, the message, and
+(when the confirm travels inside the `MsgConfirm` wrapper) the wrapper's own `bridger_address` -/
+structure SignedTx where
+  signer : String
+  wrapper : Option String
+  t : TxConfirm
+  deriving DecidableEq, Repr
+
+/-- the account that must have signed: the field named by the proto signer option (regenerated `confirmSigners`) of the
+OUTERMOST message -/
+def requiredSigner (x : SignedTx) : Option String :=
+  match x.wrapper with
+  | none => if confirmSigners.lookup (msgTypeOf x.t.m.key) = some "bridger_address" then some x.t.m.bridger else none
+  | some b => if confirmSigners.lookup "MsgConfirm" = some "bridger_address" then some b else none
+
+inductive DeliverErr where
+  | ante                      -- not signed by the required signer
+  | undecodable               -- `MsgConfirm` without `UnpackInterfaces`: no cached value, `MsgServer.Confirm` rejects
+  | tx (e : TxErr)
+  deriving DecidableEq, Repr
+
+/-- ante handler (signer), decoding of the wrapper, `ValidateBasic`, handler.  `ValidateBasic` of the wrapper itself does not
+exist (`MsgConfirm` has none); the inner message is validated by nobody when wrapped -/
+def deliverTx (E : VbEnv) (tron : Bool) (recoverBy : String → List Nat → List Nat → Option String) (st : HState) (x : SignedTx) :
+    Except DeliverErr HState :=
+  if requiredSigner x ≠ some x.signer then .error .ante
+  else match x.wrapper with
+    | some _ =>
+      if msgConfirmUnpacks then
+        (match confirmStepGV tron recoverBy st x.t.m with | .ok st' => .ok st' | .error e => .error (.tx (.handler e)))
+      else .error .undecodable
+    | none => match txStep E tron recoverBy st x.t with | .ok st' => .ok st' | .error e => .error (.tx e)
 
 /-! ### branches of the state -/
 
